@@ -169,7 +169,7 @@ def unit_excel_workbooks():
                 if kind == "b": return "1" if v else "0"
                 if kind == "d": return v.strftime("%Y-%m-%d %H:%M:%S")
                 if kind == "t": return v.strftime("%H:%M:%S")
-            numbers = [0, 1, -1, 7, 10, 255, 2**31, 2**53, -2**53, 0.5, -0.25, 1.5, 3.14159, 1e-7, 1.25e10, 123456789.125, 0.1, 2.675, 1e21, 5e-324, 1.5e300]
+            numbers = [12.05, 0.05, -1.003, 9.0625, 100.0625, 0, 1, -1, 7, 10, 255, 2**31, 2**53, -2**53, 0.5, -0.25, 1.5, 3.14159, 1e-7, 1.25e10, 123456789.125, 0.1, 2.675, 1e21, 5e-324, 1.5e300]
             if ctx.thorough: numbers += [rng.uniform(-1e6, 1e6) for _ in range(300)] + [float(rng.randint(-2**53, 2**53)) for _ in range(300)]
             dates = [datetime.datetime(1900, 3, 1, 0, 0, 0), datetime.datetime(1999, 12, 31, 23, 59, 59), datetime.datetime(2024, 2, 29, 12, 0, 1), datetime.datetime(9999, 12, 31, 0, 0, 0), datetime.datetime(2001, 1, 1, 0, 0, 0)]
             if ctx.thorough: dates += [datetime.datetime(1900, 3, 1) + datetime.timedelta(days=rng.randint(0, 2958000), seconds=rng.randint(0, 86399)) for _ in range(300)]
@@ -200,6 +200,17 @@ def unit_excel_workbooks():
             res.append(sweep("C16/workbooks/all cell kinds x 1-3 sheets x requested sheet", cases(), check, "audit",
                              "workbooks written with xlsxwriter: %d cell values (strings, integers up to 2^53, floats, booleans, dates 1900-03-01..9999-12-31, pure times) in ragged rows, 1-3 sheets, each sheet requested" % len(cells),
                              describe=lambda c: {"sheets": c[0], "requested_sheet": c[2]}, function="rowio.excel_rows + _excel_cell_value", unit="C16.workbooks", props=["C16"]))
+            # the Sheet property through the validating reader
+            def sheet_cases():
+                for k in (None, 1, 2, 3): yield k
+            def sheet_check(k):
+                from cutplace import interface, validio
+                n[0] += 1; path = os.path.join(tmp, "s%d.xlsx" % n[0]); build(path, [[[("s", "sheet%d" % i), ("s", "x")]] for i in (1, 2, 3)])
+                cid = interface.Cid(); cid.read("cid", [["d", "format", "excel"]] + ([["d", "sheet", str(k)]] if k else []) + [["f", "a"], ["f", "b"]])
+                got = list(validio.rows(cid, path)); want = [["sheet%d" % (k or 1), "x"]]
+                return None if got == want else {"expected": want, "observed": got}
+            res.append(sweep("C16/workbooks/the Sheet property selects the sheet the validating reader reads", sheet_cases(), sheet_check, "audit", "3-sheet workbook x Sheet property {unset, 1, 2, 3} through validio.rows",
+                             describe=lambda k: {"sheet_property": k}, function="validio.Reader._raw_rows + rowio.excel_rows", unit="C16.workbooks", props=["C16"]))
             # xlsx row writer round trip
             def rt_cases():
                 alpha = ["", "a", "b c", "=x", "ä", "1", "0.5", "x\ny", "<&>"]
